@@ -4,6 +4,7 @@ Proof: lean/Props/C04.lean.  Tie: decoded `.dods` rows of `BaseHandler` for `?co
 `open_url(url?ce)` and on the client's sequence operators."""
 import copy
 import csv
+import hashlib
 import os
 import re
 import shutil
@@ -36,7 +37,7 @@ def load():
 
 def make_app(P, backend, names, kinds, rows, tmpdir):
     if backend == "csv":
-        path = os.path.join(tmpdir, "t%d.csv" % (abs(hash((tuple(names), tuple(rows)))) % 10 ** 12))
+        path = os.path.join(tmpdir, "t%s.csv" % hashlib.md5(repr((tuple(names), tuple(rows))).encode()).hexdigest()[:16])
         if not os.path.exists(path):
             with open(path, "w", newline="") as f:
                 w = csv.writer(f, quoting=csv.QUOTE_NONNUMERIC)
@@ -174,14 +175,6 @@ def finding_class(entry, backend, cols, rng_, clauses, kinds_by_name=None, expec
         return "C04.lazy.no_source_records"
     colcol = any(rc[2][0] == "name" for (_, _, _, rc) in clauses)
     strcl = kinds_by_name is not None and any(kinds_by_name[rc[0]] == "t" for (_, _, _, rc) in clauses)
-    if backend == "np" and strcl:
-        return "C04.numpy.string_clause"
-    if colcol and (entry == "operators" or backend in ("it", "csv")):
-        return "C04.column_vs_column"
-    if entry in ("operators", "open_url") and cols is not None and rng_ is not None:
-        return "C04.client.columns_with_range"
-    if entry == "open_url" and cols is not None:
-        return "C04.open_url.projection"
     return None
 
 
@@ -303,12 +296,6 @@ W_NAMES, W_KINDS = ["i", "f", "t"], ["i", "f", "t"]
 W_ROWS = [(1, 1.5, "ab"), (2, 1.5, "cd"), (3, 2.5, "ab"), (4, -1.0, "b")]
 WITNESS = {
     "C04.lazy.no_source_records": dict(backend="it", cols=None, rng_=None, entry="raw", clauses=[], rows=[]),
-    "C04.numpy.string_clause": dict(backend="np", cols=None, rng_=None, entry="raw",
-                                    clauses=[("s.t", "=", '"ab"', ("t", "=", ("const", "ab")))]),
-    "C04.column_vs_column": dict(backend="it", cols=None, rng_=None, entry="raw",
-                                 clauses=[("s.i", "<", "s.f", ("i", "<", ("name", "f")))]),
-    "C04.client.columns_with_range": dict(backend="np", cols=["f", "i"], rng_=(1, 1, 2), clauses=[], entry="operators"),
-    "C04.open_url.projection": dict(backend="np", cols=["f"], rng_=None, clauses=[], entry="open_url"),
 }
 
 
